@@ -409,6 +409,21 @@ static void gen_c02_schnorr(const std::string& tier, std::vector<Work>& W) {
 }
 
 // ------------------------------------------------------------------------------------------- C11
+// C11, auto-configured session (--tx/--txin without script) under a pair list: true iff the session runs to the end without error
+static bool run_auto_mock(const std::string& txs, const std::string& fins, const std::string& expr, std::string& stage) {
+    impl::quiet_globals(); Instance inst; bool ok = true;
+    try {
+        if (!expr.empty() && !inst.parse_pretend_valid_expr(expr.c_str())) { ok = false; stage = "parse_pretend_valid_expr"; }
+        if (ok && !inst.parse_transaction(txs.c_str(), true)) { ok = false; stage = "parse_transaction"; }
+        if (ok && !inst.parse_input_transaction(fins.c_str(), -1)) { ok = false; stage = "parse_input_transaction"; }
+        if (ok && !inst.configure_tx_txin()) { ok = false; stage = "configure_tx_txin"; }
+        if (ok && !inst.setup_environment(F_STANDARD)) { ok = false; stage = "setup_environment"; }
+        int guard = 0;
+        while (ok && !inst.at_end() && guard++ < 1000) if (!inst.step()) { ok = false; stage = "step: " + inst.error_string(); }
+    } catch (const std::exception& e) { ok = false; stage = std::string("exception: ") + e.what(); }
+    return ok;
+}
+
 static void gen_c11(const std::string& tier, std::vector<Work>& W) {
     bool th = tier != "quick";
     std::vector<gen::Key> keys = {gen::make_key(1), gen::make_key(2), gen::make_key(3)};
@@ -463,7 +478,49 @@ static void gen_c11(const std::string& tier, std::vector<Work>& W) {
             }
         }, "mock list"});
     }
-    // tapscript: CHECKSIG with a listed pair (x-only key); explicit mode cannot select TAPSCRIPT from the CLI, so this goes through the native sigver field
+    // taproot key path, tapscript and P2WPKH through the auto-configuration path (--tx/--txin, no script): the signature in the witness is
+    // made invalid by one flipped bit; the pair (that signature, the key it is checked against) is listed / not listed / listed with
+    // another signature / listed with another key. Expected outcome of the whole session: success iff the signature really verifies
+    // or the exact pair is listed.
+    for (std::string type : {"p2tr-key", "p2tr-script", "p2wpkh"}) for (bool annex : {false, true}) {
+        if (annex && type == "p2wpkh") continue;
+        W.push_back({[=](Violations& V, Stats2& S) {
+            gen::Shape sh; sh.nin = gen::is_taproot_type(type) ? 1 : 2; sh.pos = sh.nin - 1; sh.fund_vout = 1; sh.nout = 2;
+            for (uint8_t ht : {uint8_t(gen::is_taproot_type(type) ? 0 : 1), uint8_t(0x81)}) {
+                gen::Spend G = gen::make_spend(type, sh, ht, 1, annex);
+                bytes good = G.tx.vin[sh.pos].witness[0];
+                bytes bad = good; bad[bad.size() / 2] ^= 0x04;
+                bytes key;
+                if (type == "p2tr-key") { const bytes& spk = G.fund.vout[1].spk; key = bytes(spk.begin() + 2, spk.end()); }
+                else if (type == "p2tr-script") key = bytes(G.leaf_script.end() - 33, G.leaf_script.end() - 1);
+                else key = G.tx.vin[sh.pos].witness[1];
+                bytes other_sig = bad; other_sig[1] ^= 0x40;
+                bytes other_key = key; other_key[5] ^= 0x01;
+                struct MC { const char* name; bool use_bad; std::vector<std::pair<bytes, bytes>> list; bool expect_ok; };
+                std::vector<MC> cases = {
+                    {"genuine signature, no list", false, {}, true},
+                    {"invalid signature, no list", true, {}, false},
+                    {"invalid signature, exact pair listed", true, {{bad, key}}, true},
+                    {"invalid signature, exact pair listed second", true, {{other_sig, other_key}, {bad, key}}, true},
+                    {"invalid signature, another signature listed for the key", true, {{other_sig, key}}, false},
+                    {"invalid signature, listed for another key", true, {{bad, other_key}}, false},
+                    {"genuine signature, another signature listed for the key", false, {{other_sig, key}}, true},
+                };
+                for (auto& mc : cases) {
+                    Tx tx = G.tx; if (mc.use_bad) tx.vin[sh.pos].witness[0] = bad;
+                    std::string expr; for (size_t i = 0; i < mc.list.size(); i++) { if (i) expr += ","; expr += "0x" + hex(mc.list[i].first) + ":0x" + hex(mc.list[i].second); }
+                    std::string label = type + (annex ? " annex" : "") + " hashtype=" + std::to_string(ht) + ": " + mc.name;
+                    J rj = JObj().put("engine", "mc_sig").put("mode", "c11-auto").put("tx", hex(ser_tx(tx))).put("txin", hex(ser_tx(G.fund))).put("list", expr).put("expect_ok", mc.expect_ok).put("label", label).j();
+                    note(rj.s);
+                    std::string stage; bool ok = run_auto_mock(hex(ser_tx(tx)), hex(ser_tx(G.fund)), expr, stage);
+                    S.sessions++; S.outcomes[ok ? "OK" : "invalid"]++;
+                    if (ok != mc.expect_ok)
+                        V.add(std::string("c11:auto:") + type + ":" + mc.name + ":" + (ok ? "accepted" : "rejected"),
+                              label + ": the session must " + (mc.expect_ok ? "succeed" : "fail") + " but " + (ok ? "succeeds" : "fails at " + stage), rj);
+                }
+            }
+        }, "mock pairs in auto-configured sessions " + type});
+    }
     // malformed lists
     W.push_back({[=](Violations& V, Stats2& S) {
         for (const char* e : {"aa", "aa:", ":bb", "aa::bb", "aa:bb,", ",aa:bb", "aa:bb,,cc:dd", "aa:bb:cc", "", ","}) {
@@ -521,6 +578,9 @@ int main(int argc, char** argv) {
                 Ctx c; parse_tx(unhex(r["tx"].s), c.tx); parse_tx(unhex(r["txin"].s), c.fund); c.k = int(r["k"].i()); c.amount = r["amount"].i(); c.sv = SigVer(r["sv"].i()); c.label = "replay";
                 std::vector<std::pair<bytes, bytes>> mocks; for (auto& m : r["mocks"].a) mocks.push_back({unhex(m.a[0].s), unhex(m.a[1].s)});
                 Stats2 s; compare_explicit(c, unhex(r["script"].s), impl::stack_from_json(r["stack"]), uint32_t(r["flags"].i()), r["label"].s, "replay", *vv, s, mocks, true, vv == &V1);
+            } else if (r["mode"].s == "c11-auto") {
+                std::string stage; bool ok = run_auto_mock(r["tx"].s, r["txin"].s, r["list"].s, stage);
+                if (ok != r["expect_ok"].b) vv->add("c11:auto:replay", r["label"].s + ": expected " + (r["expect_ok"].b ? "success" : "failure") + ", got " + (ok ? "success" : "failure at " + stage), J::raw("{}"));
             } else if (r["mode"].s == "auto") {
                 sc::Case c; parse_tx(unhex(r["tx"].s), c.tx); parse_tx(unhex(r["txin"].s), c.fund); c.select = int(r["select"].i()); c.flags = uint32_t(r["flags"].i()); c.label = r["label"].s; c.klass = r["klass"].s; sc::Stats s; sc::compare_session(c, *vv, s, "mc_sig", "auto", vv == &V1);
             }
